@@ -101,7 +101,7 @@ func (x *Exec) execStmt(st *State, s ast.Stmt) []outcome {
 				for _, nm := range vs.Names {
 					o := e.info().Defs[nm]
 					if o != nil {
-						st.vars[o] = e.zeroValue(o.Type(), true)
+						st.vars[o] = x.coerceBV(nm.Name, e.zeroValue(o.Type(), true))
 					}
 				}
 				continue
@@ -216,6 +216,7 @@ func (x *Exec) assignIdent(e *Env, id *ast.Ident, v Value, define bool) {
 		unsupported("%s: assignment to unknown identifier %s", e.where, id.Name)
 	}
 	v = e.assignable(v, o.Type())
+	v = x.coerceBV(id.Name, v)
 	if cur, ok := e.st.vars[o]; ok {
 		if r, isRef := cur.(RefV); isRef && info.Defs[id] == nil {
 			x.setMem(e.st, r.Alloc, nil, v)
@@ -960,6 +961,38 @@ func assignedIn2(info *types.Info, nodes ...ast.Node) (direct, through map[types
 	return
 }
 
+// resliceOnly: every assignment to the slice variable o in body has the form o = o[a:b].
+func resliceOnly(info *types.Info, o types.Object, body ast.Node) bool {
+	ok := true
+	ast.Inspect(body, func(m ast.Node) bool {
+		as, isAs := m.(*ast.AssignStmt)
+		if !isAs {
+			return true
+		}
+		for i, l := range as.Lhs {
+			id, isId := l.(*ast.Ident)
+			if !isId || (info.Uses[id] != o && info.Defs[id] != o) {
+				continue
+			}
+			if len(as.Rhs) != len(as.Lhs) {
+				ok = false
+				continue
+			}
+			se, isSl := as.Rhs[i].(*ast.SliceExpr)
+			if !isSl {
+				ok = false
+				continue
+			}
+			bid, isId := se.X.(*ast.Ident)
+			if !isId || info.Uses[bid] != o {
+				ok = false
+			}
+		}
+		return true
+	})
+	return ok
+}
+
 // havocVar replaces the value of a variable by a fresh one of the same shape.
 func (x *Exec) havocValueLike(e *Env, v Value, name string, t types.Type) Value {
 	switch c := v.(type) {
@@ -1053,6 +1086,16 @@ func (x *Exec) invariantLoop(st *State, ls *loopSpec, inv []Clause) []outcome {
 		}
 		if r, isRef := cur.(RefV); isRef {
 			h.mem[r.Alloc] = x.havocLike(e, h.mem[r.Alloc], o.Name())
+			continue
+		}
+		if sv, isSlice := cur.(SliceV); isSlice && !resliceOnly(info, o, ls.body) {
+			// assigned from append / a call: unknown allocation with unknown contents
+			arr := x.memArr(h, sv.Alloc, sv.path)
+			na := x.alloc()
+			h.mem[na] = x.havocLike(e, ArrayV{T: arr.T, N: -1, Elem: arr.Elem}, o.Name()+".arr")
+			nv := x.havocValueLike(e, cur, o.Name(), o.Type()).(SliceV)
+			nv.Alloc, nv.path = na, nil
+			h.vars[o] = nv
 			continue
 		}
 		h.vars[o] = x.havocValueLike(e, cur, o.Name(), o.Type())
